@@ -410,8 +410,24 @@ def compute_next_state(state: State, event: dict) -> State:
         # If it's not a completed flow, we have a valid head element
         flow_head_element = flow_config.elements[flow_state.head]
 
+        # A flow that waits for exactly this type of event (e.g., a custom event in the
+        # middle of the flow) is always triggered by it.
+        if flow_head_element["_type"] == "branch":
+            head_elements = [
+                flow_config.elements[flow_state.head + branch_head]
+                for branch_head in flow_head_element["branch_heads"]
+            ]
+        else:
+            head_elements = [flow_head_element]
+        waits_for_event = any(
+            element["_type"] == event["type"] for element in head_elements
+        )
+
         # If the flow is not triggered by the current even type, we copy it as is
-        if event["type"] not in flow_config.trigger_event_types:
+        if (
+            event["type"] not in flow_config.trigger_event_types
+            and not waits_for_event
+        ):
             new_state.flow_states.append(flow_state)
 
             # If we don't have a next step, up to this point, and the current flow is on
